@@ -137,6 +137,17 @@ def make_items(chk: Check, nops: list, npool: int, thorough: bool, hists: list) 
                     items.append({"id": f"fail_{kind}{ci}_{vi}_{k}",
                                   "programs": [[(kind, ci, vi, k), (kind, ci, 1 - vi, 0), (kind, ci, vi, 0),
                                                 ("w" if kind == "r" else "r", ci, vi, 0)]]})
+    # (a') an encode that fails because of the value, in every field position the pool offers
+    for ci in range(npool):
+        for vi in (0, 1):
+            for j in range(6):
+                items.append({"id": f"bad{ci}_{vi}_{j}",
+                              "programs": [[("wbad", ci, vi, j), ("w", ci, 1 - vi, 0), ("w", ci, vi, 0),
+                                            ("wbad", ci, 1 - vi, j), ("w", (ci + 1) % npool, vi, 0), ("r", ci, vi, 0)]]})
+    # (a'') equal-but-distinct values (signed zeros) in both orders
+    for ci in range(npool):
+        items.append({"id": f"eq{ci}a", "programs": [[("w", ci, 0, 0), ("w", ci, 1, 0), ("w", ci, 0, 0)]]})
+        items.append({"id": f"eq{ci}b", "programs": [[("w", ci, 1, 0), ("w", ci, 0, 0), ("r", ci, 1, 0)]]})
     # (b) random histories over the pool: creation orders, reuse, failures, cache clears
     for i in range(1500 if thorough else 250):
         L = rng.randrange(3, 12)
@@ -147,12 +158,14 @@ def make_items(chk: Check, nops: list, npool: int, thorough: bool, hists: list) 
             kind = rng.choice("wr")
             if c < 0.08:
                 prog.append(("clear",))
+            elif c < 0.16:
+                prog.append(("wbad", ci, vi, rng.randrange(6)))
             elif c < 0.35:
                 n = nops[ci][vi][0 if kind == "w" else 1]
                 prog.append((kind, ci, vi, rng.randrange(1, n + 1) if n else 0))
             else:
                 prog.append((kind, ci, vi, 0))
-        for ci in {p[1] for p in prog if p[0] != "clear"}:
+        for ci in sorted({p[1] for p in prog if p[0] != "clear"}):
             prog += [("w", ci, 0, 0), ("r", ci, 1, 0)]
         items.append({"id": f"hist{i}", "programs": [prog]})
     # (c) behaviours of the Registry model, sequentially and with their thread interleaving
